@@ -53,7 +53,7 @@ class C11(Property):
     def cases(self, tier, rng):
         lines = []
         self.groups = []
-        nbase = 36 if tier == "quick" else 300
+        nbase = 36 if tier == "quick" else 1500
         for g in range(nbase):
             if g % 4 == 0:
                 n, atts = gen.random_framework(rng, 8)
